@@ -30,6 +30,17 @@ impl<T: ?Sized> RwLock<T> {
     /// while holding the write lock. It may also panic if the current thread
     /// already holds the lock.
     pub fn read(&self) -> RwLockReadGuard<'_, T> {
+        #[cfg(feature = "verif-hooks")]
+        if crate::verif::is_controlled() {
+            loop {
+                crate::verif::yield_point("sync.rwlock.read");
+                match self.0.try_read() {
+                    Ok(guard) => return guard,
+                    Err(std::sync::TryLockError::WouldBlock) => continue,
+                    Err(_) => panic!("acquiring a poisoned rwlock"),
+                }
+            }
+        }
         self.0.read().expect("acquiring a poisoned rwlock")
     }
 
@@ -44,6 +55,17 @@ impl<T: ?Sized> RwLock<T> {
     /// while holding the write lock. It may also panic if the current thread
     /// already holds the lock.
     pub fn write(&self) -> RwLockWriteGuard<'_, T> {
+        #[cfg(feature = "verif-hooks")]
+        if crate::verif::is_controlled() {
+            loop {
+                crate::verif::yield_point("sync.rwlock.write");
+                match self.0.try_write() {
+                    Ok(guard) => return guard,
+                    Err(std::sync::TryLockError::WouldBlock) => continue,
+                    Err(_) => panic!("acquiring a poisoned rwlock"),
+                }
+            }
+        }
         self.0.write().expect("acquiring a poisoned rwlock")
     }
 }
@@ -83,6 +105,17 @@ impl<T: ?Sized> Mutex<T> {
     /// while holding the lock. It may also panic if the current thread
     /// already holds the lock.
     pub fn lock(&self) -> MutexGuard<'_, T> {
+        #[cfg(feature = "verif-hooks")]
+        if crate::verif::is_controlled() {
+            loop {
+                crate::verif::yield_point("sync.mutex.lock");
+                match self.0.try_lock() {
+                    Ok(guard) => return guard,
+                    Err(std::sync::TryLockError::WouldBlock) => continue,
+                    Err(_) => panic!("acquiring a poisoned mutex"),
+                }
+            }
+        }
         self.0.lock().expect("acquiring a poisoned mutex")
     }
 }
